@@ -17,6 +17,8 @@ VAR_OPS = [
     ("A='x y'", 'assign', ('A', 'x y')),
     ("A=", 'assign', ('A', '')),
     ("A=a=b:c", 'assign', ('A', 'a=b:c')),
+    ("A='{a,b}'", 'assign', ('A', '{a,b}')),
+    ("A='`vh-mark RAN 0`$(vh-mark RAN 0)'", 'assign', ('A', '`vh-mark RAN 0`$(vh-mark RAN 0)')),
     ("export A=3", 'export', ('A', '3')),
     ("unset A", 'unset', 'A'),
     ("A=9 vh-argv PREFIX", 'prefix', ('A', '9')),
@@ -27,6 +29,7 @@ VAR_OPS = [
     ("unset B", 'unset', 'B'),
     ("B=7 vh-argv PREFIX", 'prefix', ('B', '7')),
 ]
+SHALLOW_OPS = ("A='{a,b}'", "A='`vh-mark RAN 0`$(vh-mark RAN 0)'")
 CD_OPS = [("cd ROOT/d1", 'cd', 'ROOT/d1'), ("cd d2", 'cd', 'd2'), ("cd ..", 'cd', '..'), ("cd ln", 'cd', 'ln'), ("cd", 'cd', None),
           ("cd -", 'cd', '-'), ("cd nx", 'cd', 'nx'), ("cd f", 'cd', 'f'), ("cd ROOT/d1/d2", 'cd', 'ROOT/d1/d2')]
 OPS = VAR_OPS + CD_OPS
@@ -176,6 +179,8 @@ def run(rep, tier):
         meta = []
         for m, hist in frontier:
             for oi, op in enumerate(OPS):
+                if op[0] in SHALLOW_OPS and len(hist) > 1:
+                    continue      # values with braces / substitutions: applied from the states within one step of the start only
                 m2 = m.copy()
                 ok, prefix = m2.apply(op)
                 if ok is None:
@@ -229,7 +234,8 @@ def run(rep, tier):
                 rep.traces_validated += 1
                 if m2.key() not in seen:
                     seen[m2.key()] = hist
-                    nxt.append((m2, hist))
+                    if op[0] not in SHALLOW_OPS:       # states reached through those values are observed but not expanded further
+                        nxt.append((m2, hist))
             else:
                 rep.outcome('deviation:' + dev)
                 st = 'exported' if (op[1] in ('assign', 'prefix', 'read', 'unset') and any(v[1] for v in m.vars.values())) else 'plain'
